@@ -8,7 +8,16 @@ from props import _approx as A
 ENV_BY_TIER = {"quick": {"NUMBA_DISABLE_JIT": "1"}, "thorough": {}}
 LEVEL = "proof"
 
-CS = [2.0, 3.7, 1e-4, 1e5, 1000.0 * math.pi]
+CS = [2.0, 3.7, 1e-4, 1e5, 1000.0 * math.pi]          # the property's list (function level: all of them)
+CS_WIDE = [1e-6, 1e6]                                  # pipeline: also the ends of the range
+
+
+def pipeline_factors(ctx):
+    """thorough: all seven factors; quick: four per case -- 3.7, 1000 pi, one small and one large factor (one of
+    them at the end of the range), so that a defect that only shows for c >= a few hundred, or <= 1e-5, is met"""
+    if ctx.tier == "thorough":
+        return CS + CS_WIDE
+    return [3.7, 1000.0 * math.pi, ctx.rng.choice([1e-4, 1e-6, 1e-6]), ctx.rng.choice([1e5, 1e6, 1e6])]
 POW2 = [2.0, 2.0 ** -20, 2.0 ** 30]
 
 # relative tolerances of the whole-pipeline comparison (DESIGN.md section 8, C06), re-measured on the
@@ -19,7 +28,12 @@ TOL = {"variational_gamma": 1e-6, "inside_outside": 1e-10, "maximization": 1e-10
 TOL_VAR = {"variational_gamma": 1e-4, "inside_outside": 1e-10, "maximization": 1e-10}
 
 RULE = ("PIPELINE: small msprime tree sequences (2-9 samples, 1-40 trees, haploid/diploid, historical and internal samples, "
-        "phased and unphased singletons) x the three methods x random valid options x c in {2, 3.7, 1e-4, 1e5, 1000 pi}: "
+        "phased and unphased singletons), 45 % of them with gen.exotic decorations (all nodes renumbered, extra flag bits, "
+        "mutations above roots, mutation-free sites, unknown mutation times, odd allele states, populations) x the three "
+        "methods x off-default options (rescaling_intervals 0 / 1-5 / default, match_segregating_sites, regularise_roots both "
+        "ways, singletons_phased=False on ploidy-2 inputs, max_shape, constr_iterations; discrete: eps, probability_space, "
+        "explicit prior grids with integer or array timepoints, population-size histories with 2-3 epochs) x c in "
+        "{2, 3.7, 1e-4, 1e5, 1000 pi, 1e-6, 1e6} (quick: four per case incl. one end of the range): "
         "mutation rate / c, min_branch_length x c, input node and mutation times x c, and for the discrete methods "
         "population_size, eps and user timepoints x c; compared: node times, mutation times, posterior means (x c) and "
         "variances (x c^2) of nodes and mutations.  FUNCTION LEVEL: every moment function and projection wrapper of "
@@ -165,30 +179,56 @@ def scale_ts(ts, c):
 
 
 def pipeline_case(ctx):
+    """-> (ts, method, options, grid, exotic kinds).  grid: None | (Ne, timepoints) for an explicit prior grid;
+    a population-size HISTORY (several epochs) is passed as options['population_size'] = ('history', sizes, breaks)"""
     from props import _dating as D
+    from vlib import gen
     rng = ctx.rng
     method = rng.choice(D.METHODS)
     dip = method == "variational_gamma" and rng.random() < 0.35
     vg = method == "variational_gamma"
     ts = D.datable_ts(rng, historical=vg and not dip and rng.random() < 0.35, internal=vg and not dip and rng.random() < 0.25,
                       big=ctx.tier == "thorough" and rng.random() < 0.3, ploidy=2 if dip else 1)
+    kinds = []
+    if rng.random() < 0.45:
+        # valid-but-unusual decorations no simulator produces (node renumbering, extra flag bits, mutations above
+        # roots, mutation-free sites, unknown mutation times, odd allele states, populations); both runs of a pair
+        # use the same decorated input, so nothing has to be mapped back
+        ts, kinds = gen.exotic(rng, ts, p=0.4)
     kw = D.method_options(rng, method, ts)
-    if kw.get("rescaling_intervals") == 1000 and rng.random() < 0.8:
-        kw["rescaling_intervals"] = rng.choice([1, 2, 5])       # 1000 intervals mostly hit known finding K2 on tiny inputs
     kw.setdefault("min_branch_length", 1e-8)
-    if dip and rng.random() < 0.7:
-        kw["singletons_phased"] = False
-    grid = None
-    if method != "variational_gamma":
-        kw.setdefault("eps", 1e-8)
+    if vg:
+        u = rng.random()
+        if u < 0.3:
+            kw["rescaling_intervals"] = 0
+        elif u < 0.6:
+            kw["rescaling_intervals"] = rng.choice([1, 2, 5])
+        elif kw.get("rescaling_intervals") == 1000 and rng.random() < 0.6:
+            kw.pop("rescaling_intervals")                   # the default (1000; mostly known finding K2 on tiny inputs)
         if rng.random() < 0.35:
+            kw["match_segregating_sites"] = True
+        kw["regularise_roots"] = rng.random() < 0.6       # root regularisation on more often than not
+        if dip and rng.random() < 0.7:
+            kw["singletons_phased"] = False
+    grid = None
+    if not vg:
+        kw.setdefault("eps", rng.choice([1e-8, 1e-6, 1e-10]))
+        u = rng.random()
+        if u < 0.3:
             # user timepoints through an explicit prior grid
             ne = kw.pop("population_size")
             tp = rng.choice([5, 12, "array"])
             if tp == "array":
                 tp = np.array(sorted({0.0} | {round(ne * x, 6) for x in (0.01, 0.1, 0.3, 1.0, 2.0, 5.0, 12.0)}))
             grid = (ne, tp)
-    return ts, method, kw, grid
+        elif u < 0.55:
+            # piecewise-constant population size history with 2-3 epochs
+            ne = kw["population_size"]
+            k = rng.choice([2, 3])
+            sizes = [ne * rng.choice([0.2, 0.5, 1.0, 3.0, 10.0]) for _ in range(k)]
+            breaks = sorted(ne * x for x in rng.sample([0.05, 0.3, 1.0, 2.5], k - 1))
+            kw["population_size"] = ("history", sizes, breaks)
+    return ts, method, kw, grid, kinds
 
 
 def run_dating(D, ts, method, kw, grid, c):
@@ -199,7 +239,12 @@ def run_dating(D, ts, method, kw, grid, c):
     if "eps" in kw:
         kw["eps"] = kw["eps"] * c
     if "population_size" in kw:
-        kw["population_size"] = kw["population_size"] * c
+        ne = kw["population_size"]
+        if isinstance(ne, (tuple, list)) and ne and ne[0] == "history":
+            from tsdate.demography import PopulationSizeHistory
+            kw["population_size"] = PopulationSizeHistory(np.array(ne[1], dtype=float) * c, np.array(ne[2], dtype=float) * c)
+        else:
+            kw["population_size"] = ne * c
     t = scale_ts(ts, c) if c != 1.0 else ts
     if grid is not None:
         ne, tp = grid
@@ -248,9 +293,11 @@ def rescaling_changepoint_tie(D, ts, method, kw, grid, c):
 def pipeline(ctx, n):
     from props import _dating as D
     for _ in range(n):
-        ts, method, kw, grid = pipeline_case(ctx)
+        ts, method, kw, grid, kinds = pipeline_case(ctx)
         base = run_dating(D, ts, method, kw, grid, 1.0)
-        desc = {"method": method, "options": D.jsonable_opts({k: v for k, v in kw.items()}),
+        for k_ in kinds:
+            ctx.tally("exotic:" + k_)
+        desc = {"method": method, "options": D.jsonable_opts({k: v for k, v in kw.items()}), "exotic": kinds,
                 "grid": None if grid is None else [grid[0], grid[1] if isinstance(grid[1], int) else grid[1].tolist()],
                 "input": __import__("vlib.gen", fromlist=["x"]).ts_summary(ts),
                 "historical": bool(np.any(ts.nodes_time[ts.samples()] > 0))}
@@ -259,7 +306,7 @@ def pipeline(ctx, n):
                  kind="pipeline/%s/%s" % (method, "dated" if ok else base[1]))
         if ok:
             a = result_arrays(D, base[1])
-        for c in CS:
+        for c in pipeline_factors(ctx):
             r = run_dating(D, ts, method, kw, grid, c)
             replay = dict(desc, c=c, tables=__import__("vlib.gen", fromlist=["x"]).ts_tables_dict(ts))
             if not ok:
@@ -329,6 +376,8 @@ def replay(ctx, data):
     from vlib import gen
     ts = gen.ts_from_dict(case["tables"])
     kw = dict(case["options"])
+    if isinstance(kw.get("population_size"), list):
+        kw["population_size"] = tuple(kw["population_size"])
     grid = case.get("grid")
     if grid is not None:
         grid = (grid[0], grid[1] if isinstance(grid[1], int) else np.array(grid[1]))
